@@ -11,6 +11,7 @@ import (
 	"runtime/debug"
 	"sort"
 	"strings"
+	"sync"
 	"time"
 
 	_ "github.com/octohelm/gengo/devpkg/partialstruct"
@@ -29,6 +30,40 @@ func init() {
 func (prop) ID() string        { return "C18" }
 func (prop) CoqModule() string { return "Gengo.Corr.C18" }
 func (prop) Parallel() int     { return 12 }
+
+// notes of the out-of-domain stream, collected across Run calls and reported once per invocation (core.Extra)
+var (
+	notesMu    sync.Mutex
+	notesSeen  = map[string]int{}
+	notesFirst = map[string]string{}
+)
+
+func addNote(kind, example string) {
+	notesMu.Lock()
+	defer notesMu.Unlock()
+	notesSeen[kind]++
+	if _, ok := notesFirst[kind]; !ok {
+		notesFirst[kind] = example
+	}
+}
+
+// Extra reports what was observed outside the generator's domain (never a violation).
+func (prop) Extra(_ *core.RNG, _ string, _ string) ([]string, []string, map[string]any) {
+	notesMu.Lock()
+	defer notesMu.Unlock()
+	var kinds []string
+	for k := range notesSeen {
+		kinds = append(kinds, k)
+	}
+	sort.Strings(kinds)
+	var notes []string
+	stats := map[string]any{}
+	for _, k := range kinds {
+		notes = append(notes, fmt.Sprintf("outside the generator's domain [%s] (%d case(s)): %s", k, notesSeen[k], notesFirst[k]))
+		stats["out_of_domain:"+k] = notesSeen[k]
+	}
+	return nil, notes, stats
+}
 
 const knownClass = "import_name_shadows_template_local"
 const knownClassIface = "unnamed_method_interface_rendered_any"
@@ -210,26 +245,26 @@ func (in *Input) normalize() {
 	}
 }
 
-// the spec whose generated type is called gen (by the naming rule), among the enabled ones
-func (in *Input) specFor(gen string) *Spec {
-	for _, fs := range in.flat() {
-		if fs.S.enabled() && genName(fs.S.Name) == gen {
-			return fs.S
+// the enabled declarations in the order the generator visits them: the i-th generated type belongs to the i-th
+// (the property does not fix how the generated type is named)
+func (in *Input) enabledSorted() []*Spec {
+	var out []*Spec
+	for _, fs := range in.sorted() {
+		if fs.S.enabled() {
+			out = append(out, fs.S)
 		}
 	}
-	return nil
+	return out
 }
 
 // reflectViolations: the property's sentence on the compiled artefact, decided from the input and the reflect report only
 func reflectViolations(in *Input, tis []typeInfo) (viol []string) {
-	seen := map[string]bool{}
-	for _, ti := range tis {
-		seen[ti.Name] = true
-		s := in.specFor(ti.Name)
-		if s == nil {
-			viol = append(viol, "generated type "+ti.Name+" corresponds to no enabled declaration")
-			continue
-		}
+	en := in.enabledSorted()
+	if len(en) != len(tis) {
+		return []string{fmt.Sprintf("%d types generated for %d enabled declarations", len(tis), len(en))}
+	}
+	for k, ti := range tis {
+		s := en[k]
 		wantOrigin := pkgPathOf(in, "origin") + "." + in.Types[s.Origin].Name
 		if s.RHS == "local" {
 			wantOrigin = pkgPathOf(in, "target") + "." + localName(&in.Types[s.Origin])
@@ -296,11 +331,6 @@ func reflectViolations(in *Input, tis []typeInfo) (viol []string) {
 			case len(r.ReplacedDiff) > 0:
 				viol = append(viol, fmt.Sprintf("%s: replaced fields differ from the replacement's own copy (fill seed %d): %v", ti.Name, r.Seed, r.ReplacedDiff))
 			}
-		}
-	}
-	for _, fs := range in.flat() {
-		if fs.S.enabled() && !seen[genName(fs.S.Name)] {
-			viol = append(viol, "no generated type for the enabled declaration "+fs.S.Name)
 		}
 	}
 	if len(viol) > 4 {
@@ -419,8 +449,14 @@ func (prop) Run(raw json.RawMessage, scratch string) core.Result {
 		res.GoViolations = append(res.GoViolations, viol...)
 	} else {
 		sort.Strings(domainNotes)
+		dn := strings.Join(dedup(domainNotes), "; ")
 		for _, v := range viol {
-			res.Notes = append(res.Notes, "outside the generator's domain ("+strings.Join(dedup(domainNotes), "; ")+"): "+v)
+			res.Notes = append(res.Notes, "outside the generator's domain ("+dn+"): "+v)
+		}
+		if len(viol) > 0 {
+			addNote(dn, viol[0])
+		} else {
+			addNote(dn, "generated, compiled and copied like an in-domain input")
 		}
 	}
 	switch {
